@@ -91,6 +91,14 @@ fn main() {
         let limit: u64 = std::env::var("VERIF_STALL_S").ok().and_then(|s| s.parse().ok()).unwrap_or(180);
         report::start_stall_watchdog(&cmd, ctx.out.clone(), limit);
     }
+    if matches!(cmd.as_str(), "C04" | "C09") && ctx.replay.is_none() {
+        // the controlling (main) thread of the schedule-driven checks also calls into the database: it builds
+        // each scenario's base file and reads the final state.  A call that never comes back there (seeded
+        // change C09-p: a reader's begin busy-waits on a flag that a failed remap left set) is outside the
+        // controller's own verdicts; one step of this thread takes milliseconds.
+        let limit: u64 = std::env::var("VERIF_STALL_S").ok().and_then(|s| s.parse().ok()).unwrap_or(120);
+        report::start_stall_watchdog(&cmd, ctx.out.clone(), limit);
+    }
     let shard: Shard = match cmd.as_str() {
         "C01" => c01::run(&ctx, c01::Mode::C01),
         "C02" => c02::run(&ctx),
